@@ -224,6 +224,29 @@ def rule_ord(ctx) -> None:
                 de = kwarg(c, "delete")
                 ctx.check(isinstance(de, ast.Constant) and de.value is False, "C08.ORD", f"{fn.qual}/tmp-delete", fn.loc(c),
                           "delete=False: the temp survives close() until renamed", "NamedTemporaryFile without delete=False", nontrivial=False)
+    # a temp created by hand: its NAME must be unique per write.  tempfile picks a fresh random name with O_EXCL; a name built
+    # from the destination and deterministic parts only (pid, a fixed suffix) is shared by every write of that destination in the
+    # process - a second writer truncates the temp the first has filled, and the first one's rename publishes a partial file
+    for fn in holders:
+        rdf = ctx.rd(fn)
+        cfgf = ctx.cfg(fn)
+        for n in cfgf.nodes:
+            for c in node_calls(n):
+                is_open = (dotted(c.func) in ("open", "io.open", "os.open") and c.args) or (isinstance(c.func, ast.Attribute) and c.func.attr in ("open", "touch", "write_bytes", "write_text") and not dotted(c.func) in ("os.open",))
+                if not is_open:
+                    continue
+                target = c.args[0] if dotted(c.func) in ("open", "io.open", "os.open") else c.func.value
+                inl = rdf.inline(target, n)
+                from_dst = any(isinstance(y, ast.Name) and y.id in fn.params for y in ast.walk(inl))
+                if not from_dst:
+                    continue
+                found += 1
+                unique = any(isinstance(y, ast.Call) and ((dotted(y.func) or "").split(".")[0] in ("uuid", "secrets", "random") or call_tail(y) in ("token_hex", "uuid4", "uuid1", "urandom", "getrandbits", "mkstemp", "NamedTemporaryFile"))
+                             for y in ast.walk(inl))
+                excl = any(const_str(a) is not None and "x" in const_str(a) for a in c.args[1:2]) or any(isinstance(y, ast.Attribute) and y.attr == "O_EXCL" for a in c.args for y in ast.walk(a))
+                ctx.check(unique or excl, "C08.ORD", ctx.okey(f"{fn.qual}/tmp-name-unique-per-write"), fn.loc(c), "the hand-made temp name is unique per write (random part or exclusive creation)",
+                          f"`{src(c)[:60]}` creates the temp under `{src(inl)[:60]}`, a name built from the destination and deterministic parts only: two writes of one destination in the same process share "
+                          "the temp - the second truncates what the first has written and the first one's rename publishes a partial file (and a failed second write leaves it there)")
     ctx.floor("C08.ORD", "temp creation sites", found, 1)
 
 
@@ -445,6 +468,23 @@ def tmp_name_rule(ctx, rule: str) -> int:
                 ctx.check(ends_dot, rule, keyp, fn.loc(c),
                           "prefix is '<destination name>.' so the temp name is '<name>.<random>' (never equal to a real artefact name)",
                           f"temp prefix {src(pre)} does not end with a '.' separator after the destination name")
+    # hand-made temps: `<destination>.<something>` created by open(): the name's constant tail must not be an accepted extension
+    for fn in holders:
+        rdf = ctx.rd(fn)
+        for n in ctx.cfg(fn).nodes:
+            for c in node_calls(n):
+                if not ((dotted(c.func) in ("open", "io.open", "os.open") and c.args) or (isinstance(c.func, ast.Attribute) and c.func.attr in ("open", "touch", "write_bytes", "write_text") and dotted(c.func) != "os.open")):
+                    continue
+                target = c.args[0] if dotted(c.func) in ("open", "io.open", "os.open") else c.func.value
+                inl = rdf.inline(target, n)
+                if not any(isinstance(y, ast.Name) and y.id in fn.params for y in ast.walk(inl)):
+                    continue
+                found += 1
+                tails = [str(v.value) for y in ast.walk(inl) if isinstance(y, ast.JoinedStr) and y.values and isinstance(y.values[-1], ast.Constant) for v in [y.values[-1]]]
+                tail = tails[-1] if tails else None
+                okk = tail is not None and tail.startswith(".") is not None and not any(tail.endswith(e) for e in ACCEPTED_EXT) and not tail.strip(".").isdigit() and tail != ""
+                ctx.check(okk, rule, ctx.okey(f"{fn.qual}/hand-made-tmp-suffix"), fn.loc(c), f"the hand-made temp name ends in {tail!r}, which no discovery / reader pattern accepts",
+                          f"the hand-made temp name `{src(inl)[:60]}` has no constant tail outside the accepted extensions {ACCEPTED_EXT}: a leftover temp can be mistaken for real data")
     ctx.floor(rule, "temp creation sites", found, 1)
     return found
 
